@@ -18,6 +18,7 @@ def gen_sequence(rng, ctx, size="small"):
     live = {"tmpl": [], "ds": [], "msg": []}
     tmpl_desc = {}
     ds_info = {}   # handle -> (ed, tmpl descs, subsets count)
+    msg_info = {}  # message handle -> ds_info of the dataset it was encoded from
 
     def new():
         h = nexth[0]; nexth[0] += 1
@@ -57,11 +58,12 @@ def gen_sequence(rng, ctx, size="small"):
             if ds_info[d] is not None and ds_info[d][2] == 0:
                 continue
             h = new(); ops.append("E%d=%d,%d" % (h, d, rng.choice([0, 0, 1]))); live["msg"].append(h)
+            msg_info[h] = list(ds_info[d]) if ds_info[d] is not None else None
             if rng.random() < 0.5:
                 ops.append("W%d" % h)
         elif r < 0.80 and live["msg"]:
             m = rng.choice(live["msg"]); h = new(); ops.append("X%d=%d,1" % (h, m)); live["ds"].append(h)
-            ds_info[h] = None
+            ds_info[h] = list(msg_info[m]) if msg_info.get(m) else None      # a decoded dataset can be extended, merged and encoded again
         elif r < 0.86 and len(live["ds"]) >= 2:
             a, b = rng.sample(live["ds"], 2)
             if ds_info[a] and ds_info[b] and ds_info[a][1] == ds_info[b][1] and ds_info[b][2] > 0:
